@@ -219,6 +219,7 @@ def kani_cmd(group, hname, hspec, tgt, extra=()):
     cmd = ["cargo", "kani", "-p", group["package"], "--harness", full, "--exact", "--target-dir", tgt]
     cmd += ["--no-assertion-reach-checks"]
     flags = list(group.get("flags", [])) + list(group.get("flags_tier", {}).get(CURRENT_TIER[0], [])) + list(hspec.get("flags", []))
+    flags += list(hspec.get("flags_tier", {}).get(CURRENT_TIER[0], []))
     cmd += flags
     cmd += list(extra)
     return cmd
@@ -274,7 +275,76 @@ def classify(hname, hspec, rc, timed_out, parsed, logtext):
     return "PASS", ""
 
 
+# ------------------------------------------------------------------------------------------------
+# result cache: the same harness serves several properties; within one machine session a PASS of
+# (harness, group, tier, parameters) on byte-identical inputs is reused instead of being solved
+# again. The key covers every file of the scratch tree as overlaid (= /repo's current working tree
+# + harness sources + injected lines + parameters), the kani command line and this runner, so any
+# edit to /repo or /verif misses the cache. Only PASS results are cached; nothing a check needs
+# lives here (an empty cache just means every harness is solved).
+
+CACHE_DIR = os.environ.get("VERIF_CACHE", "/tmp/fv_cache")
+_TREE_HASH = {}
+
+
+def tree_hash(tree):
+    if tree in _TREE_HASH:
+        return _TREE_HASH[tree]
+    import hashlib
+    h = hashlib.sha256()
+    for root, dirs, files in os.walk(tree):
+        dirs[:] = sorted(d for d in dirs if d not in ("target", ".git"))
+        for fn in sorted(files):
+            fp = os.path.join(root, fn)
+            h.update(os.path.relpath(fp, tree).encode())
+            try:
+                with open(fp, "rb") as f:
+                    # scratch paths differ per run: normalise them
+                    h.update(f.read().replace(tree.encode(), b"@TREE@").replace(os.path.dirname(tree).encode(), b"@SCRATCH@"))
+            except OSError:
+                pass
+    with open(os.path.abspath(__file__), "rb") as f:
+        h.update(f.read())
+    _TREE_HASH[tree] = h.hexdigest()
+    return _TREE_HASH[tree]
+
+
+def cache_key(group, tree, hname, hspec, tier):
+    import hashlib
+    cmd = kani_cmd(group, hname, hspec, "@TGT@")
+    return hashlib.sha256(("|".join([tree_hash(tree), group["name"], hname, tier, " ".join(cmd)])).encode()).hexdigest()
+
+
 def run_harness(group, tree, scratch, hname, hspec, tier):
+    if os.environ.get("VERIF_NO_CACHE") != "1":
+        try:
+            key = cache_key(group, tree, hname, hspec, tier)
+            cpath = os.path.join(CACHE_DIR, key + ".json")
+            if os.path.exists(cpath):
+                r = json.load(open(cpath))
+                r["cached"] = True
+                r["detail"] = (r.get("detail") or "") + " [result of an identical run in this session reused]"
+                return r
+        except Exception:
+            key = None
+    else:
+        key = None
+    r = _run_harness(group, tree, scratch, hname, hspec, tier)
+    if key and r["status"] == "PASS":
+        try:
+            os.makedirs(CACHE_DIR, exist_ok=True)
+            rr = dict(r)
+            rr["parsed"] = dict(r["parsed"])
+            rr["parsed"]["tests"] = []
+            tmp = os.path.join(CACHE_DIR, key + ".tmp%d" % os.getpid())
+            json.dump(rr, open(tmp, "w"))
+            os.replace(tmp, os.path.join(CACHE_DIR, key + ".json"))
+        except Exception:
+            pass
+    return r
+
+
+def _run_harness(group, tree, scratch, hname, hspec, tier):
     tgt = os.path.join(scratch, "tgt_" + re.sub(r"\W", "_", hname))
     base = os.path.join(scratch, "tgt_base_" + group["package"])
     if os.path.isdir(base) and not os.path.isdir(tgt):
@@ -686,6 +756,7 @@ def write_evidence(pid, prop, tier, seed, results, violations, known_hits, incon
                 "solver_time_s": round(p.get("solver_time_s") or 0, 1),
                 "symex_s": p.get("symex_s"),
                 "wall_s": r["wall_s"],
+                "reused_from_identical_run_in_session": bool(r.get("cached")),
             }
         )
     def _user_level(c):
